@@ -133,6 +133,41 @@ impl<F: Fam> Ctx<F> {
                     if pe != se || !m.par_eq(m) {
                         return Err(format!("par_eq = {}, == is {}", pe, se));
                     }
+                    // ... and against near-copies in the other phase (a clone is never split): equal,
+                    // one value changed, one key exchanged (same length), one pair fewer
+                    {
+                        let eqc = m.clone();
+                        if !eqc.par_eq(m) || !m.par_eq(&eqc) {
+                            return Err("par_eq is false between a map and its clone".to_string());
+                        }
+                        if !want_keys.is_empty() {
+                            let idx = (rep as usize * 7 + want_keys.len() / 2) % want_keys.len();
+                            let mut c = m.clone();
+                            for (i, (_, v)) in c.iter_mut().enumerate() {
+                                if i == idx {
+                                    let x = v.v();
+                                    v.set(x ^ 0x0055_0000);
+                                }
+                            }
+                            if c.par_eq(m) || m.par_eq(&c) || c == *m {
+                                return Err(format!("par_eq/== is true between a map and a copy in which one value differs (copy.par_eq(map) = {}, map.par_eq(copy) = {})", c.par_eq(m), m.par_eq(&c)));
+                            }
+                            let mut c = m.clone();
+                            let victim = c.keys().nth(idx).map(|k| k.k());
+                            if let Some(vk) = victim {
+                                let gone = c.remove(&F::K::mk(vk));
+                                if c.par_eq(m) || m.par_eq(&c) {
+                                    return Err("par_eq is true between a map and a copy with one pair fewer".to_string());
+                                }
+                                if let Some(v) = gone {
+                                    c.insert(F::K::mk(0x7200_0000 + rep as u32), v);
+                                    if c.par_eq(m) || m.par_eq(&c) || c == *m {
+                                        return Err(format!("par_eq/== is true between a map and a copy of the same length in which one key differs (copy.par_eq(map) = {}, map.par_eq(copy) = {})", c.par_eq(m), m.par_eq(&c)));
+                                    }
+                                }
+                            }
+                        }
+                    }
                     // par_extend / from_par_iter against their sequential counterparts
                     let items: Vec<(F::K, F::V)> = (0..24u32)
                         .map(|i| {
@@ -206,6 +241,44 @@ impl<F: Fam> Ctx<F> {
                         for (name, par, seq, model) in preds {
                             if par != seq || par != model {
                                 return Err(format!("{} (order {}) = {}, sequential {}, reference {}", name, order, par, seq, model));
+                            }
+                        }
+                        // the predicates against near-copies of x in the other phase (a clone is never
+                        // split): equal, one element fewer, one element exchanged, all elements fresh
+                        {
+                            let idx = if mx.is_empty() { 0 } else { (rep as usize * 5 + mx.len() / 2) % mx.len() };
+                            let mut variants: Vec<(&str, Set<F>, BTreeSet<u32>)> = Vec::with_capacity(4);
+                            variants.push(("an equal copy", x.clone(), mx.clone()));
+                            if let Some(vk) = mx.iter().nth(idx).copied() {
+                                let mut c = x.clone();
+                                let mut mc = mx.clone();
+                                c.remove(&F::K::mk(vk));
+                                mc.remove(&vk);
+                                variants.push(("a copy with one element fewer", c.clone(), mc.clone()));
+                                c.insert(F::K::mk(0x7300_0000 + rep as u32));
+                                mc.insert(0x7300_0000 + rep as u32);
+                                variants.push(("a copy with one element exchanged", c, mc));
+                                if mx.len() <= 512 {
+                                    let fresh: BTreeSet<u32> = (0..mx.len() as u32).map(|i| 0x7400_0000 + i).collect();
+                                    let fs: Set<F> = fresh.iter().map(|k| F::K::mk(*k)).collect();
+                                    variants.push(("a set of as many fresh elements", fs, fresh));
+                                }
+                            }
+                            for (what, c, mc) in variants.iter() {
+                                for dir in 0..2 {
+                                    let (p, q, mp, mq) = if dir == 0 { (x, c, mx, mc) } else { (c, x, mc, mx) };
+                                    let preds = [
+                                        ("par_is_subset", p.par_is_subset(q), p.is_subset(q), mp.is_subset(mq)),
+                                        ("par_is_superset", p.par_is_superset(q), p.is_superset(q), mp.is_superset(mq)),
+                                        ("par_is_disjoint", p.par_is_disjoint(q), p.is_disjoint(q), mp.is_disjoint(mq)),
+                                        ("par_eq", p.par_eq(q), p == q, mp == mq),
+                                    ];
+                                    for (name, par, seq, model) in preds {
+                                        if par != seq || par != model {
+                                            return Err(format!("{} between the set and {} (direction {}) = {}, sequential {}, reference {}", name, what, dir, par, seq, model));
+                                        }
+                                    }
+                                }
                             }
                         }
                         let items: Vec<F::K> = (0..16u32).map(|i| F::K::mk(if i % 2 == 0 { 0x7100_0000 + i } else { mx.iter().next().copied().unwrap_or(5) })).collect();
